@@ -17,6 +17,21 @@ CHECKS = {
     note="Trusted: Coq kernel+vm_compute, translator, RDKit validity/atoms as the oracle, harness.",
     technique="Coq invariant proof by induction over operation histories + exhaustive short-history correspondence",
     design="7/C19"),
+ "C03": dict(
+    text="Machine-checked proof (Coq) over the pipeline model (Model/Pipeline.v, all eleven stages, every oracle answer universally quantified): every row of a completed run that is not solved returns exactly its input reaction and a non-empty issue (default threshold: no score below it), and every solved row names one of the three methods. The hand-written model is tied to the code by replaying every recorded real batch (corpus + stage-targeted generated reactions) through the model inside Coq: all public columns of all rows and all seven statistics must coincide; the stage order/flags of the real pipeline are traced and compared. Independent RDKit-only oracles check each returned row (untouched, reason, method, carbon-deficit declined).",
+    note="Proved for every oracle: declined_untouched, solved_named. Kept visible but not proved (decided by correspondence+oracles only): 'solved rows have an empty issue' for mcs-based rows and 'carbon-deficit rows are declined' (both need facts about impute_reaction that the pipeline-level model treats as a black box). Trusted: Coq kernel+vm_compute, translator, recorders (module-attribute wrappers, n_jobs=1), RDKit for the oracles.",
+    technique="Coq invariant proof over an 11-stage pipeline model + recorded-oracle replay of real batches inside Coq",
+    design="7/C03"),
+ "C13": dict(
+    text="Machine-checked proof (Coq): for every oracle and input, an mcs-based row of a completed run carries the confidence, is solved exactly when its confidence key reaches the threshold key and otherwise carries the threshold message; for two thresholds on the same input the confidences, reactions, methods and rules coincide, all rows of other methods and declined rows are identical, and raising the threshold never solves an unsolved row. Correspondence: real runs at thresholds 0, 0.5, 1 and at observed confidences and both float neighbours, replayed in the model with float64 order keys; cross-threshold oracle on the real rows.",
+    note="Confidence in [0,1] is the scoring model's contract (oracle assumption, checked on every scored row). Floats enter the model only as order-preserving integer keys. Trusted: Coq kernel+vm_compute, recorders, numpy/xgboost as oracle.",
+    technique="Coq proof over the pipeline model's last stage + threshold-boundary correspondence with float64 keys",
+    design="7/C13"),
+ "C18": dict(
+    text="Machine-checked proof (Coq): for every completed batch of the pipeline model, reaction_cnt = number of input rows, balanced_cnt = number of rows labelled input-balanced, confident_cnt = number of rows solved by the MCS method, mcs_applied = number of rows not attributed to input-balanced/rule-based, rb_solved <= rb_applied, mcs_solved <= mcs_applied. Correspondence: every recorded real batch replayed in the model with all seven counters compared; merged statistics of multi-batch runs checked against rows by an independent oracle.",
+    note="The two lower bounds (solved count >= rows finally attributed to the method) are checked by the oracle only, not proved. Lost batches (C05's finding) are outside completed runs. Trusted: Coq kernel+vm_compute, recorders, harness.",
+    technique="Coq proof by positionwise stage invariants + recorded-batch replay inside Coq",
+    design="7/C18"),
 }
 NA = []
 def main():
